@@ -153,7 +153,20 @@ func admissible(p *Pat, kinds, elem map[kind]bool) bool {
 	case fOr:
 		return admissible(p.Sub[0], kinds, elem) && admissible(p.Sub[1], kinds, elem)
 	case fAnd:
-		return admissible(p.Sub[0], kinds, elem) && admissible(p.Sub[1], kinds, elem)
+		// the right operand is checked against the type of the left one
+		rk := kinds
+		if fp := footprint(p.Sub[0]); fp != nil {
+			rk = fp
+		}
+		if p.Sub[0].F == fMust {
+			rk = map[kind]bool{}
+			for k := kInt; k <= kObj; k++ {
+				if k != kNil && (kinds == nil || kinds[k]) {
+					rk[k] = true
+				}
+			}
+		}
+		return admissible(p.Sub[0], kinds, elem) && admissible(p.Sub[1], rk, elem)
 	case fAs:
 		return admissible(p.Sub[0], kinds, elem)
 	}
